@@ -375,18 +375,18 @@ func genN2(c *verdict.Ctx, idx int) *n2Case {
 		cs.ExpectDrop = true
 		cs.Param = "onReceive panics as p2p/peer.go does for an undecodable message"
 	case "high-channel-id-full-eof-packet":
-		// what the real sender produces for a message of exactly k*MaxPayload bytes on a channel id >= 0x80
-		k := 1 + r.Intn(3)
-		if cs.Chans[0].RecvCap < k*p {
-			cs.Chans[0].RecvCap = k * p
+		// what the real sender produces for messages of (about) k*MaxPayload bytes on a channel id >= 0x80:
+		// the last packet, or every packet, carries a full payload.  Legal traffic: must be delivered.
+		for m := 0; m < 1+r.Intn(3); m++ {
+			k := 1 + r.Intn(4)
+			n := k*p + []int{0, 0, 0, -1, 1}[r.Intn(5)]
+			if cs.Chans[0].RecvCap < n {
+				cs.Chans[0].RecvCap = n
+			}
+			addLegal(0, n, true)
 		}
-		data := body(k * p)
-		var out []byte
-		for _, pk := range canonical(int32(cs.Chans[0].ID), data, p) {
-			out = append(out, pk...)
-		}
-		cs.hostile = out
-		cs.Param = fmt.Sprintf("channel_id=%#x len=%d", cs.Chans[0].ID, k*p)
+		cs.MustLive = true
+		cs.Param = fmt.Sprintf("channel_id=%#x", cs.Chans[0].ID)
 	}
 	cs.HostileLen = len(cs.hostile)
 	cs.HostileHex = verdict.Hex(cs.hostile)
@@ -579,7 +579,11 @@ func runN2Case(r *rec, cs *n2Case) {
 		}
 	}
 	if droppedEarly != "" {
-		if allCanon {
+		if kind := classifyConnErr(droppedEarly); allCanon && (kind == "packet_exceeds_max_size" || kind == "message_exceeds_capacity") {
+			r.Count("n2.outcome."+cs.Class+".dropped", 1)
+			r.Violation("mconn-conforming-traffic-rejected:"+kind, "the connection rejected a packet stream exactly as a conforming sender (Channel.nextPacketMsg) produces it, every message within RecvMessageCapacity: "+droppedEarly,
+				wit(map[string]interface{}{"error": droppedEarly}))
+		} else if allCanon {
 			r.Violation("mconn-legal-input-dropped-connection", "the connection failed on a packet stream that a conforming sender produces: "+droppedEarly, wit(map[string]interface{}{"error": droppedEarly}))
 		} else {
 			r.Count("n2.odd_packetisation_dropped_connection", 1)
@@ -699,11 +703,6 @@ func stageN2(c *verdict.Ctx, r *rec) {
 	_ = rnd
 	for i := 0; i < n; i++ {
 		runN2Case(r, genN2(c, i))
-	}
-	if r.Counts["n2.outcome.high-channel-id-full-eof-packet.dropped"] > 0 {
-		r.Set("n2.observation.high_channel_id", "a message of exactly k*MaxPacketMsgPayloadSize bytes on a channel id >= 0x80, packetised the way Channel.nextPacketMsg does it, "+
-			"makes the receiver fail with 'message exceeds max size': maxPacketMsgSize() is computed with channel id 1 (one varint byte) while ids >= 0x80 need two. "+
-			"Not counted as a violation: the statement is conditional on the connection staying up, and every real channel id is below 0x80")
 	}
 	r.Count("n2.recving_hook_hits", atomic.LoadInt64(&hookHits))
 	r.Max("n2.max_recving_permille_of_capacity", atomic.LoadInt64(&hookMaxRatio))
